@@ -48,35 +48,38 @@ def boundary_inputs(seed):
     fb = {0, 1 << 63, 0x7FF0000000000000, 0xFFF0000000000000, 0x7FF8000000000000, 1, (1 << 63) | 1,
           0x000FFFFFFFFFFFFF, 0x0010000000000000, 0x7FEFFFFFFFFFFFFF, 0xFFEFFFFFFFFFFFFF}
 
-    def add(x):
+    def add(x, near=True):
         try:
             b = _bits(float(x))
         except OverflowError:
             return
-        for d in (-1, 0, 1):          # the neighbouring doubles too
+        for d in ((-1, 0, 1) if near else (0,)):          # the neighbouring doubles too
             for s in (0, 1 << 63):
                 fb.add(((b + d) & (2 ** 63 - 1)) | s)
 
     for k in range(0, 72):
-        for d in (-2, -1, 0, 1, 2):
+        for d in (-1, 0, 1):
             add(2 ** k + d)
-        add(2 ** k + 0.5)
-        add(2 ** k - 0.5)
+        add(2 ** k + 2, near=False)
+        add(2 ** k - 2, near=False)
+        add(2 ** k + 0.5, near=False)
+        add(2 ** k - 0.5, near=False)
     for k in (84, 100, 200, 1000, 1023):
         add(2.0 ** k)
-    for n in range(0, 262):
-        add(n)
-        fb.add(_bits(n + 0.5))
-        fb.add(_bits(-(n + 0.5)))
-        fb.add(_bits(n + 0.25))
-        fb.add(_bits(n + 0.75))
+    for n in list(range(0, 132)) + list(range(250, 262)):
+        add(n, near=False)
+        for fr in (0.25, 0.5, 0.75):
+            fb.add(_bits(n + fr))
+            fb.add(_bits(-(n + fr)))
+        for d in (-1, 1):                      # next to a tie
+            fb.add(_bits(n + 0.5) + d)
     for k in (8, 16, 31, 32, 33, 52, 53, 63, 64, 65):      # multiples of 2^32 +- small, wrap-around classes
         for m in (1, 3, 5, 255, 256, 257, 65535, 65537):
-            add(2 ** k * m)
-            add(2 ** k * m + 2 ** 31)
-            add(2 ** k + m)
+            add(2 ** k * m, near=False)
+            add(2 ** k * m + 2 ** 31, near=False)
+            add(2 ** k + m, near=False)
     rng = random.Random(seed)
-    for _ in range(600):
+    for _ in range(300):
         m = rng.getrandbits(53) | (1 << 52)
         e = rng.choice(list(range(-60, 20)) + [rng.randint(-1074, 971)])
         try:
@@ -152,6 +155,37 @@ LEMMA_OF = {"Value.ToInteger": "Value_ToInteger_gen_tie", "relToIdx": "relToIdx_
             "toIntStrict": "toIntStrict_gen_id", "toIntClamp": "toIntClamp_gen_id"}
 
 
+
+def _blocks(text):
+    """name -> text of every Definition / Fixpoint of a generated file"""
+    out = {}
+    for m in re.finditer(r"^(?:Definition|Fixpoint) ([A-Za-z0-9_']+)\b(.*?)\.\n(?=\n|\(\*|Definition|Fixpoint|\Z)", text, re.S | re.M):
+        out[m.group(1)] = m.group(2)
+    return out
+
+
+def changed_functions(new_text, old_text, translated):
+    """the translated functions whose generated definition, or that of something they (transitively) use, differs
+    from the committed file (those that do not differ are covered by the committed, checked LeafTie.v)"""
+    nb, ob = _blocks(new_text), _blocks(old_text)
+    if not ob:
+        return None
+    ch = {n for n in nb if nb[n] != ob.get(n)}
+    grew = True
+    while grew:
+        grew = False
+        for n, body in nb.items():
+            if n not in ch and any(re.search(r"\b%s\b" % re.escape(c), body) for c in ch):
+                ch.add(n)
+                grew = True
+    res = set()
+    for f in translated:
+        ident = f.replace(".", "_")
+        if any(x in ch for x in (ident + "_gen", ident + "_body", ident + "_bounds")):
+            res.add(f)
+    return res
+
+
 def _scratch_tree(ctx):
     """<work>/gen/coq: Base and C05 linked to /verif/coq, except LeafGen.* / LeafTie.*"""
     root = os.path.join(ctx.work, "gen", "coq")
@@ -184,11 +218,14 @@ def _enclosing_lemma(src_path, err):
     return name
 
 
-def _diff_search(ctx, root, translated, info):
+def _diff_search(ctx, root, translated, info, changed=None):
     """returns (confirmed violations, candidates found in Coq, notes)"""
     fbits, ints = boundary_inputs(ctx.seed)
     info["diff_inputs"] = {"floats": len(fbits), "ints": len(ints)}
-    names = [n for n in DIFF if n in translated]
+    names = [n for n in DIFF if n in translated and (changed is None or n in changed)]
+    info["diff_functions"] = names
+    if not names:
+        return [], {}, ["no translated function differs from the committed translation (a function left the subset, or only LeafTie.v is affected)"]
     path = os.path.join(root, "C05", "LeafDiff.v")
     with open(path, "w") as f:
         f.write("From Coq Require Import ZArith Bool List SpecFloat.\nFrom Verif.Base Require Import F64.\n"
@@ -198,15 +235,17 @@ def _diff_search(ctx, root, translated, info):
         f.write("Definition toInt64_ref (a : jsnum) : Z := match a with NInt i => i | NFlt f => if is_finite f then go_int64 f else 0 end.\n")
         f.write("Definition fbits : list Z := [%s].\n" % "; ".join(_z(b) for b in fbits))
         f.write("Definition ints : list Z := [%s].\n" % "; ".join(_z(i) for i in ints))
+        f.write("Definition fls : list (Z * f64) := Eval vm_compute in map (fun b => (b, of_bits b)) fbits.\n")
+        f.write("Definition nums : list (Z * jsnum) := Eval vm_compute in map (fun b => (b, canon_of (of_bits b))) fbits.\n")
         for n in names:
             kind, pred = DIFF[n]
             ident = n.replace(".", "_")
             if kind == "int":
                 f.write("Definition D_%s := Eval vm_compute in filter (fun i => %s) ints.\nPrint D_%s.\n" % (ident, pred, ident))
             elif kind == "float":
-                f.write("Definition D_%s := Eval vm_compute in filter (fun b => let f := of_bits b in %s) fbits.\nPrint D_%s.\n" % (ident, pred, ident))
+                f.write("Definition D_%s := Eval vm_compute in map fst (filter (fun bf => let f := snd bf in %s) fls).\nPrint D_%s.\n" % (ident, pred, ident))
             else:
-                f.write("Definition D_%s := Eval vm_compute in filter (fun b => let a := canon_of (of_bits b) in %s) fbits.\nPrint D_%s.\n" % (ident, pred, ident))
+                f.write("Definition D_%s := Eval vm_compute in map fst (filter (fun ba => let a := snd ba in %s) nums).\nPrint D_%s.\n" % (ident, pred, ident))
     rc, out = _coqc(root, path, timeout=900)
     if rc != 0:
         info["diff_error"] = out[-1500:]
@@ -226,7 +265,7 @@ def _diff_search(ctx, root, translated, info):
         return [], cands, ["harness does not build"]
     cases, origin = [], []
     for n, vals in cands.items():
-        for x in vals[:40]:
+        for x in vals[:24]:
             for mk in ROUTES.get(n, []):
                 cases.append(mk(x))
                 origin.append((n, x))
@@ -250,9 +289,9 @@ def _diff_search(ctx, root, translated, info):
             if rc != 0 or len(r1) != 1:
                 first = next((l for l in o.splitlines() if "fatal error" in l or "panic" in l), o[-300:])
                 confirmed.append({"function": n, "input": x, "case": c, "implementation_observation":
-                                  "the harness process died (rc=%d): %s" % (rc, first.strip()[:300]), "model_expected": None})
-                if len(confirmed) >= 3:
-                    break
+                                  "the harness process died (rc=%d): %s" % (rc, first.strip()[:300]),
+                                  "model_expected": "a Number (the model / specification value of this call); the process must not die"})
+                break
                 recs.append(None)
             else:
                 recs.append(r1[0])
@@ -266,7 +305,7 @@ def _diff_search(ctx, root, translated, info):
     seen = set()
     for j in bad:
         n, x = origin[j]
-        if (n, x) in seen or len(confirmed) >= 6:
+        if (n, x) in seen or len(confirmed) >= 3:
             continue
         seen.add((n, x))
         rr = vcheck.harness_replay(ctx, binp, [recs[j]["case"]], tag="leaff")
@@ -342,15 +381,18 @@ def stage(ctx):
     ctx.log("leaf translation: LeafTie.v no longer checks (at %s); searching for a failing input" % lemma)
     confirmed, cands, notes = ([], {}, [])
     if lemma != "(LeafGen.v)":
-        confirmed, cands, notes = _diff_search(ctx, root, translated, info)
+        changed = changed_functions(text, committed, translated)
+        info["changed_functions"] = sorted(changed) if changed is not None else None
+        confirmed, cands, notes = _diff_search(ctx, root, translated, info, changed)
     info["wall_s"] = round(time.time() - t0, 2)
     base = {"property": ctx.pid, "stage": "leaf translation (go2v) + coq/C05/LeafTie.v",
             "lemma_that_no_longer_checks": lemma, "coqc_error": tie_err[-1200:],
             "untranslated": untranslated, "untranslated_reasons": info["untranslated_reasons"],
-            "regenerated_file": gen, "contradicts": ["leaf_" + (lemma or "").replace("_gen_tie", "")]}
+            "regenerated_file": gen}
     if confirmed:
         for c in confirmed:
-            ctx.violation(dict(base, function=c["function"], failing_input=_describe_input(c["function"], c["input"]),
+            ctx.violation(dict(base, function=c["function"], contradicts=["leaf_" + c["function"].replace("Value.", "").replace(".", "_")],
+                               failing_input=_describe_input(c["function"], c["input"]),
                                case=c["case"], implementation_observation=c["implementation_observation"],
                                model_expected=c["model_expected"],
                                how_to_replay="bin/check C05 --replay <this file>"))
